@@ -124,5 +124,23 @@ def upstream(V, args):
 
 
 def litmus(V, args):
+    """simrt unit tests, the litmus programs on the real runtime (outcomes within the allowed sets) and, instrumented
+    by simrewrite, under exhaustive exploration of all schedules (outcome sets equal to the allowed sets)."""
     p = subprocess.run(["go", "test", "-count=1", "./simrt/..."], cwd=os.path.join(V.VERIF, "sim"), env=V.ENV)
-    sys.exit(p.returncode)
+    if p.returncode != 0:
+        sys.exit(1)
+    p = subprocess.run(["go", "test", "-count=1", "-run", "TestNative", "."], cwd=os.path.join(V.VERIF, "litmus"), env=V.ENV)
+    if p.returncode != 0:
+        sys.exit(1)
+    rw = V.ensure_rewriter()
+    scratch = tempfile.mkdtemp(prefix="mpblit-", dir="/var/tmp")
+    try:
+        mod = os.path.join(scratch, "litmus")
+        shutil.copytree(os.path.join(V.VERIF, "litmus"), mod)
+        with open(os.path.join(mod, "go.mod"), "a") as f:
+            f.write("\nrequire verif/sim v0.0.0\nreplace verif/sim => %s\n" % os.path.join(V.VERIF, "sim"))
+        V.run([rw, "-dir", mod, "./progs"], cwd=mod)
+        p = subprocess.run(["go", "run", "./simrun"], cwd=mod, env=V.ENV)
+        sys.exit(p.returncode)
+    finally:
+        shutil.rmtree(scratch, ignore_errors=True)
